@@ -49,7 +49,7 @@ META = {
         "hyper delivers the frame bytes unchanged between to_view_bytes and DataView::using (transport is outside the claim)",
         "a refused frame runs no handler: by construction of RequestContents::from_body (`?` on DataView::using) - that code sits behind hyper::Body which Kani cannot compile (ICE), so it is argued, not decided",
     ],
-    "outside": ["frames longer than 32 bytes", "message types other than the three instantiations", "the HTTP/2 transport, client/server tasks",
+    "outside": ["message types carrying shared pointers (Arc/Rc): rkyv's SharedSerializeMap is a hashbrown map keyed by pointer addresses; a two-send harness did not get through symbolic execution in 900 s (tried, removed) - so state carried from one to_view_bytes call to the next on the same thread is NOT decided", "frames longer than 32 bytes", "message types other than the three instantiations", "the HTTP/2 transport, client/server tasks",
                 "pointer validity inside *accepted* frames of variable-size types (rkyv's unchecked relative pointers)"],
 }
 
